@@ -55,7 +55,12 @@ class Klass(func):
     @staticmethod
     def decorated(): pass
     async   def   co2 (): pass
-    x = 1; y = 2; z = x
+    def \\
+        contdef(): pass
+    class \\
+            ContClass: pass
+    x = 1; y = 2; z = x; import glob as gl, \\
+        fnmatch as fm
 try:
     import json as js
 except ImportError as import_error: js = None
